@@ -4,7 +4,9 @@
      passive [max_ppm]            (max |H|^2 - 1) in ppm (<= 5000: RK45 default tolerance)
      filt    [ppt]                residual of out = ifft(fft(in) * ifftshift(H)) per polarisation
      energy  [excess_ppm]         (E_out / E_in - 1) in ppm, must be <= 5000
-     bragg   [num, den, got_ppm]  |H(f_Bragg)|^2 in ppm against the lattice value num/den
+     bragg   [num, den, got_ppm]  |H(f_Bragg)|^2 in ppm against the lattice value num/den (5e-3: accuracy of RK45 at its default tolerances,
+                                  the same allowance as for passivity; a first version allowed 2e-3 and raised a false alarm on the
+                                  non-smooth profile 1-|z| at 2048 samples)
      route   [ppt]                two specification routes of the same grating: relative difference of H; also: the same call after
                                   another sampling configuration vs a freshly imported library instance (history independence)
      shape   [same]                                                                                  *)
@@ -18,7 +20,7 @@ Clauses(e) ==
     [] e.kind = "passive" -> IF e.max_ppm > 5000 THEN {"reflectivity-above-one"} ELSE {}
     [] e.kind = "filt" -> IF e.ppt > 1000 THEN {"output-is-input-filtered-by-H"} ELSE {}
     [] e.kind = "energy" -> IF e.excess_ppm > 5000 THEN {"energy-increased"} ELSE {}
-    [] e.kind = "bragg" -> IF Abs(e.got_ppm * e.den - 1000000 * e.num) > 2000 * e.den THEN {"bragg-reflectivity-tanh2"} ELSE {}
+    [] e.kind = "bragg" -> IF Abs(e.got_ppm * e.den - 1000000 * e.num) > 5000 * e.den THEN {"bragg-reflectivity-tanh2"} ELSE {}
     [] e.kind = "route" -> IF e.ppt > 1000000 THEN {"equivalent-specifications-differ"} ELSE {}
     [] e.kind = "shape" -> IF ~e.same THEN {"shape-not-preserved"} ELSE {}
 Bad == UNION {{<<i, c>> : c \in Clauses(Trace[i])} : i \in 1..Len(Trace)}
